@@ -14,7 +14,7 @@ SHARD = 30
 RULE = ('one layer run in a subprocess (-j2): (a) scripted children writing a report of 0..40 (thorough: ..3000) names (ASCII, unicode, '
         'long, internal blanks) with stdout/stderr noise before and after (text, binary, \\r / \\r\\n line ends, header look-alikes with '
         'signs, underscores, wrong field counts), ending by exit 0/3, SIGKILL or SIGSEGV, with EVERY truncation offset of small reports and '
-        'sampled offsets of large ones, and multi-megabyte output on both pipes; (b) real children killed at import, in layer setUp, in a '
+        'sampled offsets of large ones, multi-megabyte output on both pipes, and a stderr pipe kept open by a grandchild for 12 s (31 s) after the child exited; (b) real children killed at import, in layer setUp, in a '
         'test body, in layer tearDown (their real stderr is teed and fed to the model); (c) spawn failure; '
         'non-trivial = a report with at least one name, or a fault')
 TRUSTED_BASE = ['pipes, signals, Popen and thread joins are the OS / stdlib; "no hang" is observed against a 120 s limit, not proved',
@@ -83,6 +83,12 @@ def generate(rng, tier, rep):
             if cut > last_name_start and not char_boundary(repb, cut):
                 continue
             cases.append(dict(c, cut=cut, after='', intact=False))
+    # a complete report whose stderr pipe stays open (held by a grandchild) long after the child has exited
+    for hold in {'quick': [12], 'thorough': [12, 31], 'search': []}[tier]:
+        c, _ = fake_case(rng, 'quick')
+        c.update({'fails': ['t.late_eof'], 'errs': [], 'ran': 3, 'before': '', 'after': '', 'intact': True, 'cut': None, 'big': False,
+                  'end': 'exit0', 'hold_stderr': hold})
+        cases.append(c)
     # real children dying at crash points, and spawn failure
     m = {'quick': 24, 'thorough': 200, 'search': 0}[tier]
     for i in range(m):
@@ -141,7 +147,8 @@ def observe(cases):
         os.makedirs(d, exist_ok=True)
         if c['kind'] == 'fake':
             script = {'*': {'stdout': ((b'stdout noise\n' * 150000) if c.get('big') else c['stdout'].encode()).hex(),
-                            'stderr': child_stderr(c).hex(), 'end': c['end'], 'order': 'interleave' if c.get('big') else 'out-first'}}
+                            'stderr': child_stderr(c).hex(), 'end': c['end'], 'order': 'interleave' if c.get('big') else 'out-first',
+                            'hold_stderr': c.get('hold_stderr')}}
             p = os.path.join(d, 'fake.json')
             json.dump(script, open(p, 'w'))
             env['VW_FAKE'] = p
